@@ -51,8 +51,9 @@ def register(S):
     CMD_RAISES = {"BaseException": {"props": P18, "state": ["times_ok(self.services)"], "modifies": ["self.services"]}}
     CMD_ENS = {"reply_is_encodable": ("plain(result) and sized(result)", P18), "table_stays_well_formed": ("times_ok(self.services)", P18)}
     S.contract(F + "cmd_query", params={"self": "obj:RegistryServer", "host": "val", "name": "val"}, result="val", trusted=True,
-               note="ASSUMED (sorted() over a dict view with a key function is outside the subset): answers with a plain tuple; may "
-                    "raise for a malformed name; prunes stale registrations through _remove_service",
+               note="ASSUMED (sorted() over a dict view with a key function; a proof attempt with quantified membership facts about the "
+                    "sorted entry list stalled on quantifier instantiation - see DESIGN.md 9.6): answers with a plain tuple; may raise for a "
+                    "malformed name; prunes stale registrations through _remove_service.  BOUNDED stand-in: registry_query_bounded",
                requires=["plain(host)", "plain(name)", "times_ok(self.services)"], ensures=CMD_ENS, raises=CMD_RAISES, modifies=["self.services"])
     S.external("join_names", params={"self_arg": "any", "parts": "val"}, result="str",
                note="', '.join(x): a text, or TypeError when x is not an iterable of texts", outcomes=[{"label": "ok"}, {"label": "fails", "raise": "TypeError"}])
